@@ -49,7 +49,7 @@ CLAIMS = {
  "C18": ("config.Load's post-unmarshal logic with koanf stubbed: fatal iff one of the five inconsistent combinations; each key of length 0/1/31/32/33 kept or replaced by a 32-character string from the 63-letter alphabet with one CSPRNG draw per character; NewHandler without hosts and InitStore with short keys are fatal; GenerateRandomString against its specification.",
          "6.C18", "YAML/env parsing and precedence (koanf, reflection) are not encoded; that two instances draw different keys is a property of the CSPRNG."),
  "C19": ("RDP.Marshal/Unmarshal on settings maps of <= 2 (3) entries with symbolic ASCII keys/values (round trip, one CRLF line per setting) and an independent classifier for every ASCII line of <= 5 (7) bytes (malformed lines rejected, not skipped); real bufio.Scanner/strings/sort code interpreted.",
-         "6.C19", "Builder.String/NewBuilderFromFile/template precedence use reflection (fatih/structs, mapstructure, koanf) and are NOT encoded; integers are boundary representatives (a symbolic 64-bit Itoa/Atoi round trip does not bit-blast); ASCII only."),
+         "6.C19", "Builder.String is executed with an engine model of the fatih/structs reflection API (tags, kinds, values from the static types): eight settings set arbitrarily are read back through the line parser with 'absent = built-in default' (VP_C19_builder). NewBuilderFromFile and template precedence (koanf, mapstructure) are NOT encoded; integers are boundary representatives (a symbolic 64-bit Itoa/Atoi round trip does not bit-blast); ASCII only."),
  "C20": ("KerberosProxy.Handler/forward/awaitReply executed with stubbed KDC list, dial, connections and asn1: rejection statuses contact no KDC, list merge for every (udp,tcp) count, exactly the embedded message per protocol, every request answered (channel sends/receives balanced under the cooperative scheduler), reply = a KDC's reply with the 4-byte prefix for UDP.",
          "6.C20", "DER validity, 128 KiB bodies beyond the size checks, real UDP/TCP timing are outside; <= 2 (3) KDCs per protocol."),
 }
